@@ -1,5 +1,5 @@
 // C06/C07 link: a history of in-memory API calls on an archive of either format, then serialize -> from_bytes.
-//   txth <U|S> <L|B> (S L<key> L<msg> | D L<key> | T L<title> | H L<key> | G L<key> | R)*      strings = Unicode scalar values; R = save and load again
+//   txth <U|S> <L|B> (S L<key> L<msg> | D L<key> | T L<title> | H L<key> | G L<key> | R | Z)*      strings = Unicode scalar values; R = save and load again; Z = serialize, discard
 // Output:  ser=ok:B<image> | parse=ok d<dirty> T=L<title> [L<key>=L<msg> ...]
 use crate::h_txt::*;
 use crate::h_util::*;
@@ -43,6 +43,12 @@ pub fn run(toks: &[&str]) -> String {
                     Ok(p) => p,
                     Err(e) => return format!("reload={}", terr(&e)),
                 };
+                i += 1;
+            }
+            // serialize and throw the image away: a later serialize must still describe the CURRENT content (seeded change
+            // C07-7 memoised the image and forgot to drop it in delete_message)
+            "Z" => {
+                let _ = t.serialize();
                 i += 1;
             }
             x => panic!("txth: bad token {}", x),
